@@ -3,13 +3,130 @@
 
   Only statements: the theorems of property C01 and, for each `*_parses` theorem, a concrete non-trivial
   request satisfying its hypotheses. `Spec.parseClient` (Spec/Client.lean) is the independent MQTT 5 parser;
-  `Spec.ofX` and `XInDomain` (Spec/ClientOf.lean) are the expected packet and the domain. Proof machinery is in
-  Lemmas/.
+  `Spec.ofX` and `XInDomain` (Spec/ClientOf.lean) are the expected packet and the domain of values MQTT 5 can
+  represent. The proof machinery is in Lemmas/ (CodecPrim, CodecTx, TxConnect, TxPublish, TxSubscribe, TxAck).
+
+  For every packet kind K:
+    K_valid_iff      which requests are refused (before anything is written)
+    enc_K_parses     the bytes are exactly one well-formed packet; an independent decoder reads back exactly
+                     the caller's values, protocol constants and library-assigned identifiers; `rest` is untouched
+    K_lengths        remaining-length field = number of bytes after it; property-length field = number of
+                     property bytes; the exact layout
+    K_packetLen      `packet_len()` = number of bytes written
 -/
+import PosterModel.Lemmas.TxConnect
 import PosterModel.Lemmas.TxPublish
+import PosterModel.Lemmas.TxSubscribe
+import PosterModel.Lemmas.TxAck
 
 namespace Poster
 open Spec
+
+/-! ## CONNECT -/
+
+/-- A connect request is refused exactly when authentication data is given without an authentication method. -/
+theorem connect_valid_iff (t : ConnectTx) : t.valid = true ↔ (t.authData.isSome → t.authMethod.isSome) := by
+  unfold ConnectTx.valid; cases t.authMethod <;> cases t.authData <;> simp
+
+/-- For every accepted in-domain connect request the bytes written are exactly one well-formed CONNECT packet
+    (protocol name "MQTT", version 5, reserved flag clear, will bits consistent), and an independent decoder reads
+    back clean start, keep alive, the properties (as a list, nothing added), client identifier, the will (absent, or
+    QoS / retain / properties / topic / payload), user name and password. -/
+theorem enc_connect_parses (t : ConnectTx) (hv : t.valid = true) (hd : ConnectInDomain t) (rest : Bytes) :
+    Spec.parseClient (t.encode ++ rest) = some (Spec.ofConnect t, rest) := by
+  have hb : (connectBody t).length < 268435456 := by rw [← connect_remainingLen_eq]; exact hd.size
+  rw [connect_encode_eq, connect_remainingLen_eq, parseClient_frame 16 (by decide) _ _ hb]
+  exact congrArg (Option.map _) (connect_body_parses t hv hd)
+
+/-- The remaining-length field of a written CONNECT is the number of bytes that follow it; the property-length
+    field is the number of property bytes, and likewise the will-property-length field — for every request. -/
+theorem connect_lengths (t : ConnectTx) :
+    ∃ body props willProps : Bytes,
+      t.encode = UInt8.ofNat 16 :: (encVar body.length ++ body) ∧
+      body = encStr [77, 81, 84, 84] ++ encU8 5 ++ encU8 t.payloadFlags ++ encU16 t.keepAlive
+              ++ encVar props.length ++ props ++ encStr t.clientId
+              ++ (if t.willTopic.isSome ∧ t.willPayload.isSome then
+                    encVar willProps.length ++ willProps ++ oEnc encStr t.willTopic ++ oEnc encStr t.willPayload
+                  else [])
+              ++ oEnc encStr t.username ++ oEnc encStr t.password ∧
+      props = encProps (Spec.connectProps t) ∧ willProps = encProps (Spec.willProps t) := by
+  refine ⟨connectBody t, encProps (connectProps t), encProps (Spec.willProps t), ?_, ?_, rfl, rfl⟩
+  · rw [connect_encode_eq, connect_remainingLen_eq]
+  · unfold connectBody connectWillBytes ConnectTx.willFlag
+    cases t.willTopic <;> cases t.willPayload <;> simp
+
+/-- `packet_len()` (compared with the server's Maximum Packet Size) is the number of bytes written. -/
+theorem connect_packetLen (t : ConnectTx) : t.packetLen = t.encode.length := by
+  rw [connect_encode_eq]
+  simp only [ConnectTx.packetLen, List.length_cons, List.length_append, varLen_eq, ← connect_remainingLen_eq]
+  omega
+
+/-- non-vacuity: a CONNECT with a will (QoS 1, retained, with will properties), properties, user properties,
+    enhanced authentication and credentials -/
+example :
+    let t : ConnectTx :=
+      { keepAlive := 60, sessionExpiry := some 3600, receiveMaximum := some 20, maxPacketSize := some 65536,
+        topicAliasMax := some 0, reqRespInfo := some true, reqProbInfo := some false,
+        authMethod := some [83, 67, 82, 65, 77], authData := some [0, 1, 2],
+        userProps := [([107], [118]), ([107], [119])], willQos := 1, willRetain := true, cleanStart := true,
+        clientId := [99, 108, 105], willDelay := some 5, willPfi := some true, willMei := some 10,
+        willContentType := some [116], willResponseTopic := some [114], willCorrelationData := some [1],
+        willUserProps := [([97], [98])], willTopic := some [119, 47, 116], willPayload := some [103, 111, 110, 101],
+        username := some [117], password := some [112, 119] }
+    t.valid = true ∧ ConnectInDomain t := by
+  intro t
+  refine ⟨by decide, ?_⟩
+  constructor <;> simp [t, StrOk, UserOk] <;> decide
+
+/-! ## AUTH -/
+
+/-- An authentication request is accepted exactly in two cases: the empty request (success, no properties — the
+    shortened packet), or when both authentication method and authentication data are present. -/
+theorem auth_valid_iff (t : AuthTx) :
+    t.valid = true ↔
+      (((t.reason = none ∨ t.reason = some 0) ∧ t.authMethod = none ∧ t.authData = none ∧ t.reasonString = none
+          ∧ t.userProps = [])
+        ∨ (t.authMethod.isSome ∧ t.authData.isSome)) := by
+  unfold AuthTx.valid AuthTx.shortened AuthTx.reasonVal
+  cases t.reason <;> cases t.authMethod <;> cases t.authData <;> cases t.reasonString <;> cases t.userProps <;> simp
+
+/-- For every accepted in-domain authentication request the bytes written are exactly one well-formed AUTH packet
+    (shortened to remaining length 0 for "success, no properties"), carrying the caller's reason and properties. -/
+theorem enc_auth_parses (t : AuthTx) (hv : t.valid = true) (hd : AuthInDomain t) (rest : Bytes) :
+    Spec.parseClient (t.encode ++ rest) = some (Spec.ofAuth t, rest) := by
+  have hb : (authBody t).length < 268435456 := by rw [← auth_remainingLen_eq]; exact hd.size
+  rw [auth_encode_eq, auth_remainingLen_eq, parseClient_frame 240 (by decide) _ _ hb]
+  exact congrArg (Option.map _) (auth_body_parses t hv hd)
+
+/-- Remaining length and property length of a written AUTH are the sizes of what follows them. -/
+theorem auth_lengths (t : AuthTx) :
+    ∃ body props : Bytes,
+      t.encode = UInt8.ofNat 240 :: (encVar body.length ++ body) ∧
+      body = (if t.shortened then [] else encU8 (t.reason.getD 0) ++ encVar props.length ++ props) ∧
+      props = encProps (Spec.authProps t) := by
+  refine ⟨authBody t, encProps (authProps t), ?_, ?_, rfl⟩
+  · rw [auth_encode_eq, auth_remainingLen_eq]
+  · unfold authBody AuthTx.reasonVal; cases t.shortened <;> simp
+
+theorem auth_packetLen (t : AuthTx) : t.packetLen = t.encode.length := by
+  rw [auth_encode_eq]
+  simp only [AuthTx.packetLen, List.length_cons, List.length_append, varLen_eq, ← auth_remainingLen_eq]
+  omega
+
+/-- non-vacuity: "continue authentication" with method, data, reason string and a user property -/
+example :
+    let t : AuthTx :=
+      { reason := some 0x18, authMethod := some [83, 67, 82, 65, 77], authData := some [1, 2, 3],
+        reasonString := some [111, 107], userProps := [([107], [118])] }
+    t.valid = true ∧ AuthInDomain t := by
+  intro t
+  refine ⟨by decide, ?_⟩
+  constructor <;> simp [t, StrOk, UserOk, authReasons] <;> decide
+
+/-- non-vacuity: the empty request (shortened form) is in the domain too -/
+example : ({} : AuthTx).valid = true ∧ AuthInDomain {} := by
+  refine ⟨by decide, ?_⟩
+  constructor <;> first | decide | simp [UserOk]
 
 /-! ## PUBLISH -/
 
@@ -42,13 +159,12 @@ theorem publish_lengths (t : PublishTx) :
   · rw [publish_encode_eq, publish_remainingLen_eq]
   · simp [publishBody, PublishTx.topicBytes, oEnc_id]
 
-/-- `packet_len()` (compared with the server's Maximum Packet Size) is the number of bytes written. -/
 theorem publish_packetLen (t : PublishTx) : t.packetLen = t.encode.length := by
   rw [publish_encode_eq]
   simp only [PublishTx.packetLen, List.length_cons, List.length_append, varLen_eq, ← publish_remainingLen_eq]
   omega
 
-/-- non-vacuity: a QoS 1 publication with flags, five kinds of properties and a payload -/
+/-- non-vacuity: a retained QoS 1 publication with all six kinds of properties, two user properties and a payload -/
 example :
     let t : PublishTx :=
       { retain := true, qos := 1, topic := some [97, 47, 98], packetId := some 7, pfi := some true,
@@ -59,12 +175,239 @@ example :
   refine ⟨by decide, ?_⟩
   constructor <;> simp [t, StrOk, UserOk] <;> decide
 
+/-! ## SUBSCRIBE -/
+
+/-- A subscribe request is refused exactly when it has no topic filter. -/
+theorem subscribe_valid_iff (t : SubscribeTx) : t.valid = true ↔ t.filters ≠ [] := by
+  simp [SubscribeTx.valid]
+
+/-- For every accepted in-domain subscribe request the bytes written are exactly one well-formed SUBSCRIBE packet:
+    packet identifier, subscription identifier and user properties, and for each topic filter the maximum QoS,
+    No Local, Retain As Published and Retain Handling at their bit positions, reserved bits clear. -/
+theorem enc_subscribe_parses (t : SubscribeTx) (hv : t.valid = true) (hd : SubscribeInDomain t) (rest : Bytes) :
+    Spec.parseClient (t.encode ++ rest) = some (Spec.ofSubscribe t, rest) := by
+  have hb : (subscribeBody t).length < 268435456 := by rw [← subscribe_remainingLen_eq]; exact hd.size
+  rw [subscribe_encode_eq, subscribe_remainingLen_eq, parseClient_frame 130 (by decide) _ _ hb]
+  exact congrArg (Option.map _) (subscribe_body_parses t hv hd)
+
+/-- Remaining length and property length of a written SUBSCRIBE are the sizes of what follows them. -/
+theorem subscribe_lengths (t : SubscribeTx) :
+    ∃ body props : Bytes,
+      t.encode = UInt8.ofNat 130 :: (encVar body.length ++ body) ∧
+      body = encU16 t.packetId ++ encVar props.length ++ props
+              ++ (t.filters.map fun fo => encStr fo.1 ++ encU8 fo.2.byte).flatten ∧
+      props = encProps (Spec.subscribeProps t) := by
+  refine ⟨subscribeBody t, encProps (subscribeProps t), ?_, ?_, rfl⟩
+  · rw [subscribe_encode_eq, subscribe_remainingLen_eq]
+  · simp only [subscribeBody, List.append_assoc]; rfl
+
+theorem subscribe_packetLen (t : SubscribeTx) : t.packetLen = t.encode.length := by
+  rw [subscribe_encode_eq]
+  simp only [SubscribeTx.packetLen, List.length_cons, List.length_append, varLen_eq, ← subscribe_remainingLen_eq]
+  omega
+
+/-- non-vacuity: two topic filters with different options, a two-byte subscription identifier, a user property -/
+example :
+    let t : SubscribeTx :=
+      { packetId := 9, subId := some 300, userProps := [([107], [118])],
+        filters := [([97, 47, 35], { maxQos := 1, noLocal := true, retainAsPublished := false, retainHandling := 2 }),
+                    ([98], { maxQos := 2, noLocal := false, retainAsPublished := true, retainHandling := 0 })] }
+    t.valid = true ∧ SubscribeInDomain t := by
+  intro t
+  refine ⟨by decide, ?_⟩
+  constructor <;> simp [t, StrOk, UserOk] <;> decide
+
+/-! ## UNSUBSCRIBE -/
+
+/-- An unsubscribe request is refused exactly when it has no topic filter. -/
+theorem unsubscribe_valid_iff (t : UnsubscribeTx) : t.valid = true ↔ t.filters ≠ [] := by
+  simp [UnsubscribeTx.valid]
+
+/-- For every accepted in-domain unsubscribe request the bytes written are exactly one well-formed UNSUBSCRIBE
+    packet with the caller's user properties and topic filters, in order. -/
+theorem enc_unsubscribe_parses (t : UnsubscribeTx) (hv : t.valid = true) (hd : UnsubscribeInDomain t)
+    (rest : Bytes) : Spec.parseClient (t.encode ++ rest) = some (Spec.ofUnsubscribe t, rest) := by
+  have hb : (unsubscribeBody t).length < 268435456 := by rw [← unsubscribe_remainingLen_eq]; exact hd.size
+  rw [unsubscribe_encode_eq, unsubscribe_remainingLen_eq, parseClient_frame 162 (by decide) _ _ hb]
+  exact congrArg (Option.map _) (unsubscribe_body_parses t hv hd)
+
+/-- Remaining length and property length of a written UNSUBSCRIBE are the sizes of what follows them. -/
+theorem unsubscribe_lengths (t : UnsubscribeTx) :
+    ∃ body props : Bytes,
+      t.encode = UInt8.ofNat 162 :: (encVar body.length ++ body) ∧
+      body = encU16 t.packetId ++ encVar props.length ++ props ++ (t.filters.map encStr).flatten ∧
+      props = encProps (Spec.userPs t.userProps) := by
+  refine ⟨unsubscribeBody t, encProps (userPs t.userProps), ?_, ?_, rfl⟩
+  · rw [unsubscribe_encode_eq, unsubscribe_remainingLen_eq]
+  · simp only [unsubscribeBody, List.append_assoc]
+
+theorem unsubscribe_packetLen (t : UnsubscribeTx) : t.packetLen = t.encode.length := by
+  rw [unsubscribe_encode_eq]
+  simp only [UnsubscribeTx.packetLen, List.length_cons, List.length_append, varLen_eq,
+    ← unsubscribe_remainingLen_eq]
+  omega
+
+/-- non-vacuity: two topic filters and a user property -/
+example :
+    let t : UnsubscribeTx := { packetId := 65535, userProps := [([107], [118])], filters := [[97, 47, 35], [98]] }
+    t.valid = true ∧ UnsubscribeInDomain t := by
+  intro t
+  refine ⟨by decide, ?_⟩
+  constructor <;> simp [t, StrOk, UserOk] <;> decide
+
+/-! ## DISCONNECT -/
+
+/-- For every in-domain disconnect request (none is refused) the bytes written are exactly one well-formed
+    DISCONNECT packet with the caller's reason code and properties. -/
+theorem enc_disconnect_parses (t : DisconnectTx) (hd : DisconnectInDomain t) (rest : Bytes) :
+    Spec.parseClient (t.encode ++ rest) = some (Spec.ofDisconnect t, rest) := by
+  have hb : (disconnectBody t).length < 268435456 := by rw [← disconnect_remainingLen_eq]; exact hd.size
+  rw [disconnect_encode_eq, disconnect_remainingLen_eq, parseClient_frame 224 (by decide) _ _ hb]
+  exact congrArg (Option.map _) (disconnect_body_parses t hd)
+
+/-- Remaining length and property length of a written DISCONNECT are the sizes of what follows them. -/
+theorem disconnect_lengths (t : DisconnectTx) :
+    ∃ body props : Bytes,
+      t.encode = UInt8.ofNat 224 :: (encVar body.length ++ body) ∧
+      body = encU8 t.reason ++ encVar props.length ++ props ∧
+      props = encProps (Spec.disconnectProps t) := by
+  refine ⟨disconnectBody t, encProps (disconnectProps t), ?_, ?_, rfl⟩
+  · rw [disconnect_encode_eq, disconnect_remainingLen_eq]
+  · simp only [disconnectBody, List.append_assoc]
+
+theorem disconnect_packetLen (t : DisconnectTx) : t.packetLen = t.encode.length := by
+  rw [disconnect_encode_eq]
+  simp only [DisconnectTx.packetLen, List.length_cons, List.length_append, varLen_eq, ← disconnect_remainingLen_eq]
+  omega
+
+/-- non-vacuity: "disconnect with will message", session expiry, reason string and a user property -/
+example :
+    let t : DisconnectTx :=
+      { reason := 4, sessionExpiry := some 0, reasonString := some [98, 121, 101], userProps := [([107], [118])] }
+    DisconnectInDomain t := by
+  intro t
+  constructor <;> simp [t, StrOk, UserOk, disconnectReasons] <;> decide
+
+/-! ## PUBACK, PUBREC, PUBREL, PUBCOMP -/
+
+/-- For every in-domain acknowledgement (none is refused) the bytes written are exactly one well-formed packet of
+    the kind named by the record (PUBREL with flag bits 0010), shortened to the bare packet identifier for "success,
+    no properties", carrying the packet identifier, reason code and properties. -/
+theorem enc_ack_parses (t : AckTx) (hd : AckInDomain t) (rest : Bytes) :
+    Spec.parseClient (t.encode ++ rest) = some (Spec.ofAck t, rest) := by
+  have hb : (ackBody t).length < 268435456 := by rw [← ack_remainingLen_eq]; exact hd.size
+  have hh : t.hdr < 256 := by rcases hd.hdr with h | h | h | h <;> omega
+  rw [ack_encode_eq, ack_remainingLen_eq, parseClient_frame _ hh _ _ hb]
+  exact congrArg (Option.map _) (ack_body_parses t hd)
+
+/-- Remaining length and property length of a written acknowledgement are the sizes of what follows them; the
+    reason code and the properties are omitted exactly for "success, no properties". -/
+theorem ack_lengths (t : AckTx) :
+    ∃ body props : Bytes,
+      t.encode = UInt8.ofNat t.hdr :: (encVar body.length ++ body) ∧
+      body = encU16 t.packetId
+              ++ (if t.reason = 0 ∧ props.length = 0 then [] else encU8 t.reason ++ encVar props.length ++ props) ∧
+      props = encProps (Spec.ackProps t) := by
+  refine ⟨ackBody t, encProps (ackProps t), ?_, ?_, rfl⟩
+  · rw [ack_encode_eq, ack_remainingLen_eq]
+  · unfold ackBody
+    rw [ack_short, ack_propertyLen_eq]
+    by_cases h1 : t.reason = 0 <;> by_cases h2 : (encProps (ackProps t)).length = 0 <;> simp [h1, h2]
+
+theorem ack_packetLen (t : AckTx) : t.packetLen = t.encode.length := by
+  rw [ack_encode_eq]
+  simp only [AckTx.packetLen, List.length_cons, List.length_append, varLen_eq, ← ack_remainingLen_eq]
+  omega
+
+/-- non-vacuity: a PUBREL refusing an unknown packet identifier, with a reason string and a user property -/
+example :
+    let t : AckTx :=
+      { hdr := 0x62, packetId := 513, reason := 0x92, reasonString := some [110, 111], userProps := [([107], [118])] }
+    AckInDomain t := by
+  intro t
+  constructor <;> simp [t, StrOk, UserOk, ackReasons, pubrelReasons] <;> decide
+
+/-- non-vacuity: the acknowledgements the library writes by itself (success, no properties: the shortened form) -/
+example (hdr : Nat) (h : hdr = 0x40 ∨ hdr = 0x50 ∨ hdr = 0x62 ∨ hdr = 0x70) :
+    AckInDomain { hdr := hdr, packetId := 1 } := by
+  rcases h with rfl | rfl | rfl | rfl <;>
+    (constructor <;> first | decide | simp [UserOk])
+
+/-- The acknowledgements the connection context writes by itself (`ackBytes`: success, no properties) are exactly
+    one well-formed packet of the right kind carrying the packet identifier being acknowledged. -/
+theorem enc_ackBytes_parses (hdr pid : Nat) (hh : hdr = 0x40 ∨ hdr = 0x50 ∨ hdr = 0x62 ∨ hdr = 0x70)
+    (hp : 1 ≤ pid ∧ pid ≤ 65535) (rest : Bytes) :
+    Spec.parseClient (ackBytes hdr pid ++ rest) = some (Spec.ofAck { hdr := hdr, packetId := pid }, rest) := by
+  apply enc_ack_parses
+  rcases hh with rfl | rfl | rfl | rfl <;>
+    (constructor <;> first | decide | assumption
+                           | (simp [UserOk, AckTx.remainingLen, AckTx.propertyLen, userLen] <;> decide))
+
 /-! ## PINGREQ -/
 
 /-- The ping request is exactly one well-formed PINGREQ packet. -/
 theorem enc_pingreq_parses (rest : Bytes) : Spec.parseClient (pingreqBytes ++ rest) = some (.pingreq, rest) := by
   simp [pingreqBytes, parseClient, pVar, pVarAux, parseBody]
 
+/-! ## the independent parser is not vacuous: concrete packets, and malformed ones it rejects -/
+
+/-- the four bytes of a shortened PUBACK for packet identifier 7, followed by one more byte -/
+example : parseClient [0x40, 2, 0, 7, 0xC0] = some (.puback 7 0 [], [0xC0]) := by decide
+/-- packet identifier 0 -/
+example : parseClient [0x40, 2, 0, 0] = none := by decide
+/-- PUBREL without its reserved flag bits -/
+example : parseClient [0x60, 2, 0, 7] = none := by decide
+/-- a remaining length that is not minimally encoded -/
+example : parseClient [0xC0, 0x80, 0] = none := by decide
+/-- PUBLISH with QoS 3 -/
+example : parseClient [0x36, 5, 0, 1, 97, 0, 1, 0] = none := by decide
+/-- PUBLISH whose property length overruns the packet -/
+example : parseClient [0x30, 4, 0, 1, 97, 5] = none := by decide
+/-- SUBSCRIBE without a topic filter -/
+example : parseClient [0x82, 3, 0, 1, 0] = none := by decide
+/-- SUBSCRIBE with a reserved subscription-option bit set -/
+example : parseClient [0x82, 7, 0, 1, 0, 0, 1, 97, 0x40] = none := by decide
+/-- a property twice (Topic Alias) -/
+example : parseClient [0x30, 10, 0, 1, 97, 6, 35, 0, 1, 35, 0, 2] = none := by decide
+
+/-! ## the domain restrictions are needed (requests outside the domain that the model turns into bad packets) -/
+
+/-- a will QoS without a will: the will flag is clear but the will QoS bits are set — a malformed CONNECT -/
+example : parseClient ({ willQos := 1 } : ConnectTx).encode = none := by decide
+/-- a will topic without a will payload: the will is silently dropped -/
+example : parseClient ({ willTopic := some [116] } : ConnectTx).encode
+    = some (.connect false 0 [] [] none none none, []) := by decide
+/-- a packet identifier on a QoS 0 publication is written, and read by the peer as property length and payload -/
+example : parseClient ({ topic := some [97], packetId := some 5 } : PublishTx).encode
+    = some (.publish false 0 false [97] none [] [5, 0], []) := by decide
+
+#print axioms connect_valid_iff
+#print axioms enc_connect_parses
+#print axioms connect_lengths
+#print axioms connect_packetLen
+#print axioms auth_valid_iff
+#print axioms enc_auth_parses
+#print axioms auth_lengths
+#print axioms auth_packetLen
+#print axioms publish_valid_iff
 #print axioms enc_publish_parses
+#print axioms publish_lengths
+#print axioms publish_packetLen
+#print axioms subscribe_valid_iff
+#print axioms enc_subscribe_parses
+#print axioms subscribe_lengths
+#print axioms subscribe_packetLen
+#print axioms unsubscribe_valid_iff
+#print axioms enc_unsubscribe_parses
+#print axioms unsubscribe_lengths
+#print axioms unsubscribe_packetLen
+#print axioms enc_disconnect_parses
+#print axioms disconnect_lengths
+#print axioms disconnect_packetLen
+#print axioms enc_ack_parses
+#print axioms ack_lengths
+#print axioms ack_packetLen
+#print axioms enc_ackBytes_parses
 #print axioms enc_pingreq_parses
+
 end Poster
